@@ -777,6 +777,8 @@ def var_tokens(p):
 def sampler_tokens(sd):
     if sd['kind'] == 'scalar':
         return ['s', fhex(sd['value'])]
+    if sd['kind'] == 'range' and sd.get('adv'):
+        return ['ra', fhex(sd['start']), fhex(sd['end']), str(sd['steps']), str(sd['adv'])]
     if sd['kind'] == 'range':
         return ['r', fhex(sd['start']), fhex(sd['end']), str(sd['steps'])]
     return ['d']
@@ -920,6 +922,7 @@ def only_index_dispersion(setup, diffs, N, o):
 
 def check_setup(ctx, setup, lines, keep):
     case = setup
+    post_lines = []
     rng_state = np.random.get_state()
     try:
         N = build_lens(setup['lens'])
@@ -1183,6 +1186,9 @@ def check_setup(ctx, setup, lines, keep):
                         t4.reset()
                 a4 = SensitivityAnalysis(t4)
                 a4.run()
+                s4_run = xsnap(o4)
+                t4.reset()
+                s4_reset = xsnap(o4)
             rows4 = table_rows(s4, a4.get_results())
         except Exception as e:  # noqa
             err4, rows4 = type(e).__name__, []
@@ -1201,6 +1207,13 @@ def check_setup(ctx, setup, lines, keep):
                              'pairs the operand values with the perturbation value that was applied' % ri,
                              c4, {'value': row['pvalue'], 'ops': row['ops']}, got)
                     break
+            else:
+                # the model's table for samplers in that state (`ra` samplers: k earlier sample() calls)
+                m4 = dict(s4)
+                m4['perturbations'] = [dict(p, sampler=dict(p['sampler'], adv=k)) for p, k in zip(s4['perturbations'], adv)]
+                m4['pre_advance'] = adv
+                full4 = bool(setup.get('model_ok')) and 'desc' in setup['lens'] and not has_ps
+                post_lines.append((toler_line(m4, [], [], full4), (m4, rows4, (s4_run, s4_reset, s0), full4, 'ok')))
             ctx.count('sensitivity runs after earlier apply()/reset() calls')
         elif err4 is not None and err is None:
             ctx.fail('every call with valid arguments succeeds: run() after earlier apply()/reset() calls', case, err4, None)
@@ -1253,6 +1266,9 @@ def check_setup(ctx, setup, lines, keep):
     comp_table = [r['comp'] for r in rows]
     lines.append(toler_line(setup, stream, comp_table, full))
     keep.append((case, rows, (s_run, s_reset, s0), full, 'ok'))
+    for ln, kp in post_lines:
+        lines.append(ln)
+        keep.append(kp)
 
 
 FIELDS = ('z', 'radius', 'conic', 'n', 'rx', 'ry', 'dx', 'dy')
